@@ -431,7 +431,7 @@ def run_indexed(fn: Callable[[int], Any], indices: Iterable[int], workers: int |
 			pending.add(fut)
 			return True
 
-		for _ in range(workers * 3):
+		for _ in range(workers + 4):
 			if not submit_next():
 				break
 		from concurrent.futures import FIRST_COMPLETED, wait
